@@ -122,7 +122,10 @@ def _case(draw):
                 "1,H,E,,H+,E,E,NONE,NONE,exp(-32.7d0+13.5d0*lnTe)*vt_te",
                 "2,H+,E,,H,,,NONE,.LE.5.5e3,3.92d-13*invTe**0.6353d0*user_crflux",
                 "3,H,H,,H2,,,>10,NONE,1.0d-17*sqrTgas*T32**(0.5)*exp(-1.0d0*user_Av)",
-            ] + (["5,H+,E,,H,,,NONE,NONE,2.0d-12*n(idx_E)/(n(idx_Hp)+n(idx_E))"] if draw(st.booleans()) else []) + (["@common:user_late", "@var:vt_t4 = Tgas*1.0e-4", "4,H2,E,,H,H,E,NONE,NONE,5.6d-11*exp(-1.02d5*invT)*sqrTgas*user_late*vt_t4"] if draw(st.booleans()) else [])})
+            ] + (["5,H+,E,,H,,,NONE,NONE,2.0d-12*n(idx_E)/(n(idx_Hp)+n(idx_E))"] if draw(st.booleans()) else []) + (["@common:user_late", "@var:vt_t4 = Tgas*1.0e-4", "4,H2,E,,H,H,E,NONE,NONE,5.6d-11*exp(-1.02d5*invT)*sqrTgas*user_late*vt_t4"] if draw(st.booleans()) else []) + (
+                # a user variable defined over KROME's Hnuclei (the deuterium example defines Hnuclei itself with
+                # '@var:Hnuclei = get_Hnuclei(n(:))': that line has no C counterpart, every other @var line has)
+                (["@var:Hnuclei = get_Hnuclei(n(:))"] if draw(st.booleans()) else []) + ["@var:vt_nt = 2.0d0*Hnuclei", "6,H2,H,,H,H,H,NONE,NONE,1.0d-30*vt_nt"] if draw(st.integers(0, 2)) == 0 else [])})
         else:
             files.append({"fmt": fmt, "lines": draw(_lines(fmt, bool(grain)))})
     om_choices = [[], [], [{"target": "H2", "factor": "0.5 * nH", "deps": ["H"]}, {"target": "H", "factor": "-1.0 * nH", "deps": ["H"]}], [{"target": "H2", "factor": "1.0e-17", "deps": ["H", "H"]}]]
